@@ -1,7 +1,7 @@
 SPECIFICATION TraceSpec
 CONSTANTS
   Pods = {"p1", "p2", "p3", "p4", "p5", "p6", "p7", "p8"}
-  Gangs = {"g1", "g2", "g3"}
+  Gangs = {"g1", "g2", "g3", "g11"}
 \* property invariants are listed as CONSTRAINTs (before Report): a recorded state that violates one is not
 \* explored further, so its segment never reaches SegDone (= rejected) while TLC goes on with the other segments
 CONSTRAINT FwSane
